@@ -9,13 +9,11 @@
    float, double on gcc/x86-64); what is specific to constred.c is which field of the union
    is read and which C type the expression has.
 
-   FAITHFUL to the pinned tree:
-     DEFECT expr_mul_constred, EXPR_LONG x EXPR_LONG: computes
-            (long long)left->int_value * (long long)right->int_value, i.e. reads the low 32
-            bits of both long payloads (little-endian union { int int_value; long long
-            long_value; ... }).
-     DEFECT expr_div_constred / expr_mod_constred: INT_MIN / -1 (and %) is evaluated by the
-            compiler itself: SIGFPE inside the compiler -> FCrash. *)
+   FAITHFUL to the tree:
+     DEFECT expr_div_constred / expr_mod_constred, arms with an EXPR_ENUMTYPE operand: the
+            index is divided with the raw C operator, so an enumerator equal to INT_MIN
+            divided by -1 is a SIGFPE inside the compiler -> FCrash.  (The int x int and
+            long x long arms use (b == -1) ? -a : a / b like the VM.) *)
 From Coq Require Import ZArith Bool.
 From NV Require Import Arith.NumTy Arith.Bits Arith.IntOps Arith.FloatOps Arith.Promote.
 Local Open Scope Z_scope.
@@ -40,12 +38,9 @@ Definition int_like (l : lit) : option Z :=
 Definition both_int (a b : lit) : option (Z * Z) :=
   match int_like a, int_like b with Some x, Some y => Some (x, y) | _, _ => None end.
 
-(* the low 32 bits of a long payload read through int_value *)
-Definition int_value_of_long (z : Z) : Z := wrap 32 z.
-
 Definition red_arith (o : binop) (a b : lit) : lres :=
-  match both_int a b with
-  | Some (x, y) =>
+  match a, b with
+  | LInt x, LInt y =>
       match o with
       | Add => LR (LInt (iadd 32 x y))
       | Sub => LR (LInt (isub 32 x y))
@@ -54,34 +49,44 @@ Definition red_arith (o : binop) (a b : lit) : lres :=
       | Mod => of_ires32 (imod 32 x y)
       | _ => LKeep
       end
-  | None =>
-      match a, b with
-      | LLong x, LLong y =>
+  | LLong x, LLong y =>
+      match o with
+      | Add => LR (LLong (iadd 64 x y))
+      | Sub => LR (LLong (isub 64 x y))
+      | Mul => LR (LLong (imul 64 x y))
+      | Div => of_ires64 (idiv 64 x y)
+      | Mod => of_ires64 (imod 64 x y)
+      | _ => LKeep
+      end
+  | LFloat x, LFloat y =>
+      match o with
+      | Add => LR (LFloat (fadd b32 x y))
+      | Sub => LR (LFloat (fsub b32 x y))
+      | Mul => LR (LFloat (fmul b32 x y))
+      | Div => if fis_zero b32 y then LRej else LR (LFloat (fdiv b32 x y))
+      | _ => LKeep
+      end
+  | LDouble x, LDouble y =>
+      match o with
+      | Add => LR (LDouble (fadd b64 x y))
+      | Sub => LR (LDouble (fsub b64 x y))
+      | Mul => LR (LDouble (fmul b64 x y))
+      | Div => if fis_zero b64 y then LRej else LR (LDouble (fdiv b64 x y))
+      | _ => LKeep
+      end
+  | _, _ =>
+      (* the three arms with an enum operand: raw C arithmetic on the index *)
+      match both_int a b with
+      | Some (x, y) =>
           match o with
-          | Add => LR (LLong (iadd 64 x y))
-          | Sub => LR (LLong (isub 64 x y))
-          | Mul => LR (LLong (imul 64 (int_value_of_long x) (int_value_of_long y)))  (* sic *)
-          | Div => of_ires64 (idiv 64 x y)
-          | Mod => of_ires64 (imod 64 x y)
+          | Add => LR (LInt (iadd 32 x y))
+          | Sub => LR (LInt (isub 32 x y))
+          | Mul => LR (LInt (imul 32 x y))
+          | Div => of_ires32 (cdiv 32 x y)
+          | Mod => of_ires32 (cmod 32 x y)
           | _ => LKeep
           end
-      | LFloat x, LFloat y =>
-          match o with
-          | Add => LR (LFloat (fadd b32 x y))
-          | Sub => LR (LFloat (fsub b32 x y))
-          | Mul => LR (LFloat (fmul b32 x y))
-          | Div => if fis_zero b32 y then LRej else LR (LFloat (fdiv b32 x y))
-          | _ => LKeep
-          end
-      | LDouble x, LDouble y =>
-          match o with
-          | Add => LR (LDouble (fadd b64 x y))
-          | Sub => LR (LDouble (fsub b64 x y))
-          | Mul => LR (LDouble (fmul b64 x y))
-          | Div => if fis_zero b64 y then LRej else LR (LDouble (fdiv b64 x y))
-          | _ => LKeep
-          end
-      | _, _ => LKeep
+      | None => LKeep
       end
   end.
 
@@ -260,20 +265,19 @@ Fixpoint fold (e : expr) : fres :=
 Definition ty_is (e : expr) (t : ty) : bool :=
   match ty_of e with Some t' => ty_eqb t t' | None => false end.
 
-(* the tree avoids the two value-level defects of the pinned tree listed above and in
-   Promote.emit_bin: long * long folding, bool != bool opcode *)
-Fixpoint no_known_defect (e : expr) : bool :=
+(* no / or % has an enum operand (the reducer arms that still use the raw, trapping C
+   division) *)
+Fixpoint no_enum_div (e : expr) : bool :=
   match e with
   | ELit _ => true
-  | EUn _ a | EConv _ a | ESup a => no_known_defect a
+  | EUn _ a | EConv _ a | ESup a => no_enum_div a
   | EBin o a b =>
-      no_known_defect a && no_known_defect b &&
+      no_enum_div a && no_enum_div b &&
       negb (match o with
-            | Mul => ty_is a TLong
-            | ONe => ty_is a TBool
+            | Div | Mod => ty_is a TEnum || ty_is b TEnum
             | _ => false
             end)
-  | ECond c a b => no_known_defect c && no_known_defect a && no_known_defect b
+  | ECond c a b => no_enum_div c && no_enum_div a && no_enum_div b
   end.
 
 (* every node is one the reducer evaluates eagerly when its children are literals: no
